@@ -180,12 +180,12 @@ def build(spec, user):
     except Exception as e:
         raise SutError(f"construct|{type(e).__name__}|transform|{e}") from e
     gb = b.gb
-    for i, it in enumerate(spec):
-        if it["k"] != "group":
-            gb.add(b.obj[i])
-    for which, i in user.items():
-        setattr(gb, f"{which}_node", b.node[i])
     try:
+        for i, it in enumerate(spec):
+            if it["k"] != "group":
+                gb.add(b.obj[i])
+        for which, i in user.items():
+            setattr(gb, f"{which}_node", b.node[i])
         model = gb.build_model()
     except Exception as e:
         hows = {it["transform"]["how"] for it in spec if it.get("transform")}
